@@ -464,10 +464,10 @@ func c17qEnumerate(thorough bool, visit func(grid, proto string, raw *conformanc
 				}
 			}
 		}
-		// explicit, correct Content-Length where it is computable independently
+		// explicit, correct, positive Content-Length where it is computable independently
 		for _, b := range bodies {
 			n := c17qIdentityLen(b)
-			if n < 0 {
+			if n <= 0 { // "Content-Length: 0" is net/http's business: a zero length with a body reader means "unknown" to its transport
 				continue
 			}
 			hs := []*conformancev1.Header{c17lib.H("Content-Length", strconv.Itoa(n)), c17lib.H("X-Raw-A", "a1")}
